@@ -241,6 +241,14 @@ class SymArray:
     def argsort(self, axis=-1, kind=None, **kw):
         return m_argsort(self)
 
+    def searchsorted(self, v, side="left", sorter=None):
+        return m_searchsorted_arr(self, v, side=side, sorter=sorter)
+
+    def repeat(self, repeats, axis=None):
+        if is_sym(repeats) or not isinstance(repeats, (int, numpy.integer)):
+            raise Unsupported("repeat with non-constant count")
+        return SymArray([x for x in self.e for _ in range(int(repeats))], self.dtype)
+
     def cumsum(self, axis=None):
         return m_cumsum(self)
 
@@ -558,27 +566,270 @@ def m_isin(a, b):
 
 
 class UniqueRes:
+    """numpy.unique of a 1-d symbolic array: a sorted array whose LENGTH is symbolic.  Supported: len, iteration
+    is not; indexing by (symbolic) position; the companion arrays (inverse, counts, first index) are ordinary
+    SymArrays."""
     _symarray = True
     __hash__ = None
 
     def __init__(self, a):
         self.a = a
+        es = a.e
+        n = len(es)
+        self.first = [z3.And([z3.Not(truth(R.compare(ast.Eq(), es[i], es[j]))) for j in range(i)]) if i else z3.BoolVal(True) for i in range(n)]
+        # rank of the value of row i among the distinct values
+        self.rank = []
+        for i in range(n):
+            t = z3.IntVal(0)
+            for j in range(n):
+                if j != i:
+                    t = t + z3.If(z3.And(self.first[j], truth(R.compare(ast.Lt(), es[j], es[i]))), 1, 0)
+            self.rank.append(t)
 
     def _symlen(self):
         tot = z3.IntVal(0)
-        for i, x in enumerate(self.a.e):
-            first = z3.And([z3.Not(truth(R.compare(ast.Eq(), x, self.a.e[j]))) for j in range(i)]) if i else z3.BoolVal(True)
-            tot = tot + z3.If(first, 1, 0)
+        for f in self.first:
+            tot = tot + z3.If(f, 1, 0)
         return Sym(tot, int)
 
     def _copy(self):
         return self
 
+    dtype = property(lambda self: self.a.dtype)
 
-def m_unique(a, return_counts=False):
+    def inverse(self):
+        return SymArray([Sym(r, int) for r in self.rank], int)
+
+    def counts_at(self, k):
+        """number of rows whose value has rank k"""
+        tk, _ = R.num(k) if is_sym(k) else (z3.IntVal(int(k)), int)
+        return Sym(z3.Sum([z3.If(r == tk, 1, 0) for r in self.rank]), int)
+
+    def first_index_at(self, k):
+        tk, _ = R.num(k) if is_sym(k) else (z3.IntVal(int(k)), int)
+        idx = z3.IntVal(-1)
+        for i in reversed(range(len(self.rank))):
+            idx = z3.If(z3.And(self.first[i], self.rank[i] == tk), i, idx)
+        return Sym(idx, int)
+
+    def value_at(self, k):
+        tk, _ = R.num(k) if is_sym(k) else (z3.IntVal(int(k)), int)
+        n = self._symlen().t
+        R.CTX.err(z3.Or(tk >= n, tk < -n), "IndexError")
+        tk = z3.If(tk < 0, tk + n, tk)
+        out = self.a.e[-1]
+        for i in reversed(range(len(self.rank) - 1)):
+            out = merge(self.rank[i] == tk, self.a.e[i], out)
+        return out
+
+    def __getitem__(self, idx):
+        if isinstance(idx, SymArray):
+            return SymArray([self.value_at(k) for k in idx.e], self.a.dtype)
+        if is_sym(idx) or isinstance(idx, (int, numpy.integer)):
+            return self.value_at(idx)
+        raise Unsupported("indexing of numpy.unique result")
+
+
+class _UniqueCompanion:
+    """counts / first indices of numpy.unique: length symbolic, indexable by position"""
+    _symarray = True
+    __hash__ = None
+
+    def __init__(self, u, what):
+        self.u, self.what = u, what
+
+    def _symlen(self):
+        return self.u._symlen()
+
+    def _copy(self):
+        return self
+
+    def _at(self, k):
+        return self.u.counts_at(k) if self.what == "counts" else self.u.first_index_at(k)
+
+    def __getitem__(self, idx):
+        if isinstance(idx, SymArray):
+            return SymArray([self._at(k) for k in idx.e], int)
+        if is_sym(idx) or isinstance(idx, (int, numpy.integer)):
+            return self._at(idx)
+        raise Unsupported("indexing of numpy.unique companion")
+
+
+def m_unique(a, return_index=False, return_inverse=False, return_counts=False, axis=None, **kw):
+    if kw or axis is not None:
+        raise Unsupported(f"unique({sorted(kw)}, axis={axis})")
+    if isinstance(a, SymSeries):
+        a = a.a
+    u = UniqueRes(a)
+    out = [u]
+    if return_index:
+        out.append(_UniqueCompanion(u, "index"))
+    if return_inverse:
+        out.append(u.inverse())
     if return_counts:
-        raise Unsupported("unique(return_counts)")
-    return UniqueRes(a)
+        out.append(_UniqueCompanion(u, "counts"))
+    return u if len(out) == 1 else tuple(out)
+
+
+class BinCount:
+    """numpy.bincount(x, weights): length symbolic (max+1, at least minlength); indexable by position"""
+    _symarray = True
+    __hash__ = None
+
+    def __init__(self, x, weights, minlength):
+        self.x, self.w, self.minlength = x, weights, minlength
+        for v in x.e:
+            if is_sym(v):
+                R.CTX.err(R.num(v)[0] < 0, "ValueError")
+            elif v < 0:
+                R.CTX.err(True, "ValueError")
+        self.dtype = numpy.dtype(int) if weights is None else numpy.dtype(float)
+
+    def _symlen(self):
+        m = z3.IntVal(int(self.minlength))
+        for v in self.x.e:
+            tv = R.num(v)[0] if is_sym(v) else z3.IntVal(int(v))
+            m = z3.If(tv + 1 > m, tv + 1, m)
+        return Sym(m, int)
+
+    def _copy(self):
+        return self
+
+    def _at(self, k):
+        tk = R.num(k)[0] if is_sym(k) else z3.IntVal(int(k))
+        n = self._symlen().t
+        R.CTX.err(z3.Or(tk >= n, tk < -n), "IndexError")
+        tk = z3.If(tk < 0, tk + n, tk)
+        tot = 0.0 if self.w is not None else 0
+        for i, v in enumerate(self.x.e):
+            hit = truth(R.compare(ast.Eq(), v, Sym(tk, int)))
+            add = self.w.e[i] if self.w is not None else 1
+            if self.w is not None:
+                add = R.to_float(add) if is_sym(add) else float(add)
+            tot = R.binop(ast.Add(), tot, merge(hit, add, 0.0 if self.w is not None else 0))
+        return tot
+
+    def __getitem__(self, idx):
+        if isinstance(idx, SymArray):
+            return SymArray([self._at(k) for k in idx.e], self.dtype)
+        if is_sym(idx) or isinstance(idx, (int, numpy.integer)):
+            return self._at(idx)
+        raise Unsupported("indexing of numpy.bincount result")
+
+
+def m_bincount(x, weights=None, minlength=0):
+    if isinstance(x, UniqueRes) or not isinstance(x, SymArray):
+        raise Unsupported("bincount argument")
+    if weights is not None and not isinstance(weights, SymArray):
+        weights = SymArray(list(weights))
+    return BinCount(x, weights, minlength)
+
+
+def m_diff(a, n=1, axis=-1, **kw):
+    if n != 1 or kw:
+        raise Unsupported("diff(n != 1)")
+    return a[1:] - a[:-1]
+
+
+def m_concatenate(arrays, axis=0, **kw):
+    out, dts = [], []
+    for a in arrays:
+        if isinstance(a, SymArray):
+            out += list(a.e)
+            dts.append(a.dtype)
+        elif isinstance(a, (list, tuple, numpy.ndarray)):
+            vals = [x.item() if isinstance(x, numpy.generic) else x for x in a]
+            out += vals
+            dts.append(numpy.asarray(a).dtype if not any(is_sym(v) for v in vals) else None)
+        else:
+            raise Unsupported("concatenate operand")
+    dts = [d for d in dts if d is not None]
+    return SymArray(out, numpy.result_type(*dts) if dts and not any(is_sym(v) for v in out if False) else None)
+
+
+def m_append(arr, values, axis=None):
+    vals = values if isinstance(values, (SymArray, list, tuple, numpy.ndarray)) else [values]
+    return m_concatenate([arr, vals])
+
+
+def m_lexsort(keys, axis=-1):
+    """indices that sort by the LAST key first (numpy.lexsort), stable"""
+    keys = [k if isinstance(k, SymArray) else SymArray(list(k)) for k in keys]
+    n = len(keys[0].e)
+
+    def less(j, i):
+        # row j strictly before row i in (last key, ..., first key, position) order
+        res = z3.BoolVal(j < i)
+        for k in keys:          # first key is least significant: fold from least to most significant
+            lt = truth(R.compare(ast.Lt(), k.e[j], k.e[i]))
+            eq = truth(R.compare(ast.Eq(), k.e[j], k.e[i]))
+            res = z3.Or(lt, z3.And(eq, res))
+        return res
+    ranks = [z3.Sum([z3.If(less(j, i), 1, 0) for j in range(n) if j != i]) if n > 1 else z3.IntVal(0) for i in range(n)]
+    out = []
+    for k in range(n):
+        idx = z3.IntVal(n - 1)
+        for i in range(n - 2, -1, -1):
+            idx = z3.If(ranks[i] == k, i, idx)
+        out.append(Sym(idx, int))
+    return SymArray(out, int)
+
+
+def _m_filled(value):
+    def model(shape, dtype=None, **kw):
+        if isinstance(shape, tuple):
+            if len(shape) != 1:
+                raise Unsupported("n-d array constructor")
+            shape = shape[0]
+        if is_sym(shape):
+            raise Unsupported("array constructor with symbolic length")
+        dt = numpy.dtype(dtype if dtype is not None else float)
+        v = {"f": float(value), "b": bool(value)}.get(dt.kind, int(value))
+        return SymArray([v] * int(shape), dt)
+    return model
+
+
+def m_full(shape, fill_value, dtype=None, **kw):
+    if isinstance(shape, tuple):
+        if len(shape) != 1:
+            raise Unsupported("n-d array constructor")
+        shape = shape[0]
+    if is_sym(shape):
+        raise Unsupported("array constructor with symbolic length")
+    return SymArray([fill_value] * int(shape), numpy.dtype(dtype) if dtype is not None else None)
+
+
+def m_full_like(a, fill_value, dtype=None, **kw):
+    return SymArray([fill_value] * len(a.e), numpy.dtype(dtype) if dtype is not None else a.dtype)
+
+
+def m_ones_like(a, dtype=None):
+    dt = numpy.dtype(dtype or a.dtype)
+    o = {"f": 1.0, "b": True}.get(dt.kind, 1)
+    return SymArray([o] * len(a.e), dt)
+
+
+def _m_ufunc_at(op):
+    """ufunc.at(out, indices, values): unbuffered in-place scatter"""
+    def model(out, indices, values=None):
+        if not isinstance(out, SymArray):
+            raise Unsupported("ufunc.at on a non-symbolic array")
+        idx = indices.e if isinstance(indices, SymArray) else list(indices)
+        vals = values.e if isinstance(values, SymArray) else ([values] * len(idx) if not isinstance(values, (list, tuple, numpy.ndarray)) else list(values))
+        n = len(out.e)
+        for k, v in zip(idx, vals):
+            tk = R.num(k)[0] if is_sym(k) else z3.IntVal(int(k))
+            R.CTX.err(z3.Or(tk >= n, tk < -n), "IndexError")
+            new = []
+            for pos, old in enumerate(out.e):
+                if op == "add":
+                    upd = R.binop(ast.Add(), old, v)
+                else:
+                    upd = R.py_max([old, v], op == "max")
+                new.append(merge(z3.Or(tk == pos, tk == pos - n), out._cast_elem(upd), old))
+            out.e = new
+        return None
+    return model
 
 
 def m_pad(a, pad_width, mode="constant", constant_values=0):
@@ -797,6 +1048,43 @@ _reg(numpy.amax, np_max)
 _reg(numpy.amin, np_min)
 _reg(npg.aggregate, m_aggregate)
 _reg(numpy.array_equal, m_array_equal)
+_reg(numpy.bincount, m_bincount)
+_reg(numpy.diff, m_diff)
+_reg(numpy.lexsort, m_lexsort)
+_reg(numpy.full_like, m_full_like)
+_reg(numpy.ones_like, m_ones_like)
+
+
+def _reg_always(npf, model):
+    """constructors: a symbolic column is returned even for concrete arguments, because the caller is about to
+    store symbolic values into the result"""
+    def h(args, kw):
+        return model(*args, **kw)
+    R.INTRINSICS[npf] = h
+
+
+_reg_always(numpy.zeros, _m_filled(0))
+_reg_always(numpy.ones, _m_filled(1))
+_reg_always(numpy.empty, _m_filled(0))
+_reg_always(numpy.full, m_full)
+
+
+def _reg_seq(npf, model):
+    def h(args, kw):
+        seq = args[0] if args else kw.get("arrays")
+        parts = list(seq) if isinstance(seq, (list, tuple)) else [seq]
+        if any(getattr(a, "_symarray", False) for a in parts + list(args[1:])) or R.is_symbolic(list(args)):
+            return model(*args, **kw)
+        return R._native(npf, args, kw)
+    R.INTRINSICS[npf] = h
+
+
+_reg_seq(numpy.concatenate, m_concatenate)
+_reg_seq(numpy.append, m_append)
+_reg_seq(numpy.hstack, lambda arrays, **kw: m_concatenate(arrays))
+R.INTRINSICS[numpy.add.at] = lambda args, kw: _m_ufunc_at("add")(*args, **kw)
+R.INTRINSICS[numpy.maximum.at] = lambda args, kw: _m_ufunc_at("max")(*args, **kw)
+R.INTRINSICS[numpy.minimum.at] = lambda args, kw: _m_ufunc_at("min")(*args, **kw)
 
 
 def _i_issubdtype(args, kw):
@@ -952,6 +1240,31 @@ class SymSeries:
 
     def to_list(self):
         return list(self.a.e)
+
+    def nunique(self, dropna=True):
+        return UniqueRes(self.a)._symlen()
+
+    @property
+    def iloc(self):
+        return self
+
+    @property
+    def index(self):
+        raise Unsupported("pandas index of a symbolic Series")
+
+    def map(self, arg, na_action=None):
+        if isinstance(arg, dict) and not any(is_sym(k) for k in arg):
+            out = []
+            for x in self.a.e:
+                if is_sym(x):
+                    v = float("nan")
+                    for k, val in arg.items():
+                        v = merge(truth(R.compare(ast.Eq(), x, k)), val, v)
+                    out.append(v)
+                else:
+                    out.append(arg.get(x, float("nan")))
+            return SymSeries(SymArray(out), self.name)
+        raise Unsupported("Series.map with a non-dict mapper")
 
     tolist = to_list
 
